@@ -47,10 +47,10 @@ AddFrame == /\ phase = "frames" /\ Cardinality(defined) < MaxFrames
             /\ UNCHANGED <<instr, uq, phase>>
 Pick(A) == /\ phase = "frames" /\ \E i \in A : instr' = i
            /\ uq' = {} /\ phase' = "done" /\ UNCHANGED defined
-PickPlay   == Pick(PlayAlphabet)
-PickUpdate == Pick(UpdateAlphabet)
-PickQubits == Pick(QubitAlphabet)
-PickOther  == Pick(OtherAlphabet)
+PickPlay   == phase = "frames" /\ Pick(PlayAlphabet)
+PickUpdate == phase = "frames" /\ Pick(UpdateAlphabet)
+PickQubits == phase = "frames" /\ Pick(QubitAlphabet)
+PickOther  == phase = "frames" /\ Pick(OtherAlphabet)
 PickBareReset == /\ phase = "frames" /\ instr' = BareReset
                  /\ \E qs \in SUBSET (0..2) : uq' = qs
                  /\ phase' = "done" /\ UNCHANGED defined
